@@ -255,3 +255,129 @@ func TestVfC13Framing(t *testing.T) {
 		})
 	})
 }
+
+// TestVfC13SlowSegments: the same framing oracle when the segments of one busy connection arrive spread over more than
+// the listener's idle time-out. Every gap between two segments is far below the time-out (<= 700 ms against 2 s), and each
+// segment completes a frame, so a correct listener re-arms its idle timer with every query it decodes and serves all of
+// them - whatever the cuts are. A listener that ties the timer to socket reads or to empty buffers loses the tail.
+func TestVfC13SlowSegments(t *testing.T) {
+	st := vfkit.Stats("TestVfC13SlowSegments", "k in 4..7 queries on one tcp / gnet / tls connection (all three listeners driven together per case), idle_timeout 2 s, one segment every 300-700 ms for 2.1-4.9 s in total; every segment ends at a drawn offset relative to the next frame start (aligned, inside its 2-octet prefix, right after it, inside its body); oracle: k response frames, IDs and questions of the k queries, each exactly once; non-trivial = at least one segment ends inside a following frame and the connection outlives idle_timeout")
+	defer vfkit.Flush()
+	block := NextIPBlock()
+	pip := block + "10"
+	cfg := &Config{Servers: StdServers(pip, []string{"tcp", "gnet", "tls"}, ""), Rules: []Rule{{Reject: 3}}}
+	for j := range cfg.Servers {
+		cfg.Servers[j].IdleTimeout = 2
+	}
+	p, err := StartProxy(cfg.YAML(), nil, ProxyOpts{})
+	if err != nil {
+		t.Fatal(err)
+	}
+	defer p.Cleanup()
+	caseNo := 0
+	rapid.Check(t, func(t *rapid.T) {
+		caseNo++
+		type plan struct {
+			listener string
+			k        int
+			offs     []int // offs[i]: how many octets of frame i+1 ride along with the end of frame i
+			gaps     []time.Duration
+			pad      []int
+		}
+		var plans []plan
+		skewed := false
+		for _, l := range []string{"tcp", "gnet", "tls"} {
+			pl := plan{listener: l, k: rapid.IntRange(4, 7).Draw(t, "k")}
+			for i := 0; i < pl.k; i++ {
+				pl.pad = append(pl.pad, rapid.SampledFrom([]int{0, 0, 40, 700}).Draw(t, "pad"))
+				off := rapid.SampledFrom([]int{0, 1, 1, 2, 3, 9, 20}).Draw(t, "skew")
+				pl.offs = append(pl.offs, off)
+				if off > 0 && i < pl.k-1 {
+					skewed = true
+				}
+				pl.gaps = append(pl.gaps, time.Duration(rapid.IntRange(300, 700).Draw(t, "gapMs"))*time.Millisecond)
+			}
+			plans = append(plans, pl)
+		}
+		errs := make(chan string, len(plans))
+		for pi, pl := range plans {
+			go func(pi int, pl plan) {
+				var tcfg *tls.Config
+				if pl.listener == "tls" {
+					tcfg = &tls.Config{InsecureSkipVerify: true}
+				}
+				c, err := DialStream("", fmt.Sprintf("%s:%d", pip, ListenerPorts[pl.listener]), tcfg, 3*time.Second)
+				if err != nil {
+					errs <- fmt.Sprintf("dial %s: %v", pl.listener, err)
+					return
+				}
+				defer c.Close()
+				var frames [][]byte
+				ids := map[uint16]vfkit.Name{}
+				for i := 0; i < pl.k; i++ {
+					name := vfkit.Name{[]byte(fmt.Sprintf("s%dp%dq%d", caseNo, pi, i)), []byte("c13"), []byte("test")}
+					m := &vfkit.Msg{ID: uint16(caseNo*64 + pi*16 + i), Bits: vfkit.BitRD, Q: []vfkit.Question{{Name: name, Type: 1, Class: 1}}}
+					if pl.pad[i] > 0 {
+						m.Ar = append(m.Ar, vfkit.RR{Type: 65280, Class: 1, RData: []vfkit.RDPart{{Raw: bytes.Repeat([]byte{7}, pl.pad[i])}}})
+					}
+					ids[m.ID] = name
+					frames = append(frames, frame(EncodeMsg(m)))
+				}
+				carried := 0 // octets of the current frame already sent with the previous segment
+				start := time.Now()
+				var got []*Resp
+				for i := 0; i < pl.k; i++ {
+					seg := append([]byte(nil), frames[i][carried:]...)
+					carried = 0
+					if i+1 < pl.k {
+						carried = min(pl.offs[i], len(frames[i+1])-1)
+						seg = append(seg, frames[i+1][:carried]...)
+					}
+					if _, err := c.C.Write(seg); err != nil {
+						errs <- fmt.Sprintf("%s: write of segment %d failed %v after the connection was opened: %v (plan %+v)", pl.listener, i, time.Since(start).Round(time.Millisecond), err, pl)
+						return
+					}
+					segStart := time.Now()
+					fr, _, closed := c.ReadFrames(1, pl.gaps[i])
+					got = append(got, fr...)
+					if rem := pl.gaps[i] - time.Since(segStart); rem > 0 && !closed && i+1 < pl.k {
+						time.Sleep(rem)
+					}
+					if closed {
+						errs <- fmt.Sprintf("%s: the listener closed a busy connection %v after it was opened, with %d of %d queries answered (idle_timeout 2 s, largest gap %v); plan %+v", pl.listener, time.Since(start).Round(time.Millisecond), len(got), pl.k, 700*time.Millisecond, pl)
+						return
+					}
+				}
+				if len(got) < pl.k {
+					more, _, _ := c.ReadFrames(pl.k-len(got), 2*time.Second)
+					got = append(got, more...)
+				}
+				if len(got) != pl.k {
+					errs <- fmt.Sprintf("%s: %d response frames for %d queries sent over %v; plan %+v", pl.listener, len(got), pl.k, time.Since(start).Round(time.Millisecond), pl)
+					return
+				}
+				seen := map[uint16]bool{}
+				for _, f := range got {
+					n, ok := ids[f.Msg.ID]
+					if !f.Msg.Clean() || !ok || seen[f.Msg.ID] || len(f.Msg.Q) != 1 || !f.Msg.Q[0].Name.Equal(n) || f.Msg.Rcode() != 3 {
+						errs <- fmt.Sprintf("%s: response %s does not belong to exactly one of the queries; plan %+v", pl.listener, f.Msg.Msg.String(), pl)
+						return
+					}
+					seen[f.Msg.ID] = true
+				}
+				errs <- ""
+			}(pi, pl)
+		}
+		for range plans {
+			if e := <-errs; e != "" {
+				t.Fatalf("%s\n%s", e, tail(p.Stderr(), 800))
+			}
+		}
+		if cr := p.Crashed(); cr != "" {
+			t.Fatalf("proxy crashed: %s", cr)
+		}
+		st.Case(vfkit.Fingerprint(fmt.Sprint(plans)), skewed, nil, func() any {
+			return map[string]any{"plans": fmt.Sprint(plans)}
+		})
+	})
+}
